@@ -25,6 +25,8 @@ pub enum Ty {
     OptU32,
     Pair,
     Unit,
+    /// tarpc::context::Context passed as ordinary data
+    Ctx,
 }
 
 impl Ty {
@@ -39,6 +41,7 @@ impl Ty {
             Ty::OptU32 => "Option<u32>",
             Ty::Pair => "(u8, String)",
             Ty::Unit => "()",
+            Ty::Ctx => "tarpc::context::Context",
         }
     }
     /// Rust expression producing a value of this type from seed expression `v` (u64).
@@ -53,6 +56,7 @@ impl Ty {
             Ty::OptU32 => format!("Some(({v}) as u32)"),
             Ty::Pair => format!("((({v}) % 251) as u8, format!(\"p{{}}\", {v}))"),
             Ty::Unit => "()".to_string(),
+            Ty::Ctx => format!("mkctx(500_000 + ({v}) as usize)"),
         }
     }
 }
@@ -156,7 +160,7 @@ fn ty_strategy() -> BoxedStrategy<Ty> {
 }
 
 fn reserved_arg(name: &str) -> bool {
-    matches!(name, "ctx" | "self" | "Self" | "crate" | "super" | "_" | "as" | "do" | "if" | "fn" | "in" | "let" | "mut" | "pub" | "use" | "for" | "dyn" | "mod" | "ref" | "try" | "box" | "else" | "enum" | "impl" | "loop" | "move" | "self_" | "true" | "type" | "async" | "await" | "break" | "const" | "false" | "match" | "trait" | "where" | "while" | "yield" | "static" | "struct" | "unsafe" | "return" | "extern" | "final" | "macro" | "gen" | "priv" | "abstract" | "become" | "override" | "typeof" | "unsized" | "virtual" | "continue")
+    matches!(name, "ctx" | "context" | "self" | "Self" | "crate" | "super" | "_" | "as" | "do" | "if" | "fn" | "in" | "let" | "mut" | "pub" | "use" | "for" | "dyn" | "mod" | "ref" | "try" | "box" | "else" | "enum" | "impl" | "loop" | "move" | "self_" | "true" | "type" | "async" | "await" | "break" | "const" | "false" | "match" | "trait" | "where" | "while" | "yield" | "static" | "struct" | "unsafe" | "return" | "extern" | "final" | "macro" | "gen" | "priv" | "abstract" | "become" | "override" | "typeof" | "unsized" | "virtual" | "continue")
 }
 
 fn reserved_method(name: &str) -> bool {
@@ -167,7 +171,15 @@ fn reserved_method(name: &str) -> bool {
 pub fn service_strategy(idx: usize) -> BoxedStrategy<Service> {
     let method = (
         method_name_strategy(),
-        proptest::collection::vec((arg_name_strategy(), ty_strategy()), 0..=5),
+        proptest::collection::vec(
+            prop_oneof![
+                30 => (arg_name_strategy(), ty_strategy()),
+                // a context passed as data, under names close to the ones the generated glue uses itself
+                2 => (proptest::sample::select(vec!["_ctx", "ctx_", "_context", "context_", "upstream", "_req", "_request", "this", "_self", "_service", "resp_", "_resp"]).prop_map(|s| s.to_string()), Just(Ty::Ctx)),
+                1 => (proptest::sample::select(vec!["_ctx", "_req", "_request", "_service", "_resp", "_msg"]).prop_map(|s| s.to_string()), ty_strategy()),
+            ],
+            0..=5,
+        ),
         proptest::option::weighted(0.7, prop_oneof![8 => ty_strategy(), 1 => Just(Ty::Unit)]),
         any::<bool>(),
         prop_oneof![6 => Just(0u8), 2 => Just(1u8), 1 => Just(2u8)],
